@@ -709,6 +709,56 @@ def _fromjson(t):
     return tuple(_fromjson(x) for x in t) if isinstance(t, list) else t
 
 
+_STREAM_LET = None
+
+
+def shared_stream_cases():
+    """One stream-typed node object handed to two consumers (the API can do this through a shared StreamExpression).
+    A stream is single-pass: the renderer must repeat it, never bind it with a lifted Let."""
+    import re
+    from hail import ir
+    from hail.expr.types import tarray, tint32
+
+    global _STREAM_LET
+    _STREAM_LET = re.compile(r'\((?:Agg)?Let\s+(?:eval\s+|False\s+|True\s+)?__cse_\d+\s+\((ToStream|Stream\w+)')
+    out = []
+    for which in ('tostream', 'range', 'map'):
+        arr = ir.MakeArray([ir.I32(2), ir.I32(3)], tarray(tint32))
+        if which == 'tostream':
+            s = ir.ToStream(arr)
+        elif which == 'range':
+            s = ir.StreamRange(ir.I32(0), ir.ApplyBinaryPrimOp('+', ir.I32(2), ir.I32(3)), ir.I32(1))
+        else:
+            s = ir.StreamMap(ir.ToStream(arr), 'sv0', ir.ApplyBinaryPrimOp('+', ir.Ref('sv0', tint32), ir.I32(1)))
+        for cons in ('fold+len', 'len+len'):
+            if cons == 'fold+len':
+                l = ir.StreamFold(s, ir.I32(0), 'sacc', 'sval',
+                                  ir.ApplyBinaryPrimOp('+', ir.Ref('sacc', tint32), ir.Ref('sval', tint32)))
+            else:
+                l = ir.ArrayLen(ir.ToArray(s))
+            root = ir.ApplyBinaryPrimOp('+', l, ir.ArrayLen(ir.ToArray(s)))
+            out.append((f'{which}:{cons}', root))
+    return out
+
+
+def run_shared_streams(only=None):
+    _hl()
+    render = _state['hailenv'].render
+    res = []
+    for name, root in shared_stream_cases():
+        if only is not None and name != only:
+            continue
+        text = render(root)
+        m = _STREAM_LET.search(text)
+        if m:
+            res.append((name, f'stream-typed node {m.group(1)} shared by two consumers is bound by a lifted Let '
+                              f'(a stream can be consumed once)', text))
+        else:
+            res.append((name, None, text))
+    return res
+
+
+
 def check(tier, seed, procs):
     _hl()
     _selfcheck()
@@ -728,6 +778,11 @@ def check(tier, seed, procs):
             if key not in viols:
                 viols[key] = {'signature': key, 'message': f'{msg}; term={rep["term"]}; text={text}',
                               'replay': {**rep, 'term': _tojson(rep['term'])}}
+    ss = run_shared_streams()
+    for name, msg, text in ss:
+        if msg and 'stream-bound-by-lifted-let' not in viols:
+            viols['stream-bound-by-lifted-let'] = {'signature': 'stream-bound-by-lifted-let', 'message': f'{msg}; case={name}; text={text}',
+                                                   'replay': {'kind': 'shared-stream', 'case': name}}
     per = {}
     for r in rows:
         k = f'{r["job"][1]}{"-" + r["job"][2] if r["job"][2] else ""}:size{r["job"][0]}'
@@ -775,6 +830,7 @@ def check(tier, seed, procs):
             'local_aggregation_skeletons': [sk[0] for sk in E.AGG_SKELETONS],
             'local_aggregation_programs_the_api_rejects': sum(r['nest'].get('api_rejected_programs', 0) for r in rows),
         },
+        'shared_stream_node_cases': len(ss),
         'violating_builds_per_signature': {k: sum(r['vcount'].get(k, 0) for r in rows)
                                            for k in sorted({k for r in rows for k in r['vcount']})},
     }
@@ -817,6 +873,10 @@ def _selfcheck():
 
 
 def replay(obj):
+    if obj.get('kind') == 'shared-stream':
+        _hl()
+        (name, msg, text), = run_shared_streams(obj['case'])
+        return (False, f'{msg}; text={text}') if msg else (True, 'no violation')
     term = _fromjson(obj['term'])
     # the recorded variable-name assignment first; the others too, since which assignment exposes a name-order-dependent
     # defect depends on the interpreter's string hashing
